@@ -32,11 +32,11 @@ type Header struct {
 }
 
 var (
-	showingRx  = regexp.MustCompile(`^Showing nodes accounting for (-?\d+), (\S+) of (-?\d+) total$`)
-	droppedRx  = regexp.MustCompile(`^Dropped (\d+) nodes? \(cum <= (-?\d+)\)$`)
-	droppedERx = regexp.MustCompile(`^Dropped (\d+) edges? \(freq <= (-?\d+)\)$`)
+	showingRx  = regexp.MustCompile(`^Showing nodes accounting for (-?\d+)[A-Za-z*]*, (\S+) of (-?\d+)[A-Za-z*]* total$`)
+	droppedRx  = regexp.MustCompile(`^Dropped (\d+) nodes? \(cum <= (-?\d+)[A-Za-z*]*\)$`)
+	droppedERx = regexp.MustCompile(`^Dropped (\d+) edges? \(freq <= (-?\d+)[A-Za-z*]*\)$`)
 	topNRx     = regexp.MustCompile(`^Showing top (\d+) nodes out of (\d+)$`)
-	topRowRx   = regexp.MustCompile(`^\s*(-?\d+)\s+(\S+)\s+(\S+)\s+(-?\d+)\s+(\S+)\s\s(.*)$`)
+	topRowRx   = regexp.MustCompile(`^\s*(-?\d+)[A-Za-z*]*\s+(\S+)\s+(\S+)\s+(-?\d+)[A-Za-z*]*\s+(\S+)\s\s(.*)$`)
 )
 
 func stripInline(name string) (string, string) {
